@@ -2877,7 +2877,7 @@ class DRoc(Output):
             # Put text labels on points
             for i in range(len(f_intervals)):
                 if self._show_thresholds() and (not np.isnan(x[i]) and not np.isnan(y[i])):
-                    mpl.text(x[i], y[i], "%2.1f" % f_intervals[i].center, color=opts['color'])
+                    mpl.text(x[i, 0], y[i, 0], "%2.1f" % f_intervals[i].center, color=opts['color'])
 
             # Add end points at 0,0 and 1,1:
             if not self.xlog and not self.ylog:
